@@ -57,6 +57,10 @@ Emit ==
 Gates ==
     { [proto |-> p, n |-> N, h |-> h, q |-> q, m |-> m, threshold |-> ThresholdP(p, h, q)] :
         p \in Protos, h \in Hs, q \in Qs, m \in 1..N }   \* all triples; the harness uses m >= q (beacon: m = N)
+    \cup
+    \* the tbtc group parameters used on mainnet (100 / 90 / 51), every legal wallet size
+    { [proto |-> p, n |-> 100, h |-> 51, q |-> 90, m |-> m, threshold |-> ThresholdP(p, 51, 90)] :
+        p \in Protos \cap {"tecdsa", "inactivity"}, m \in 90..100 }
 
 EmitGates == CSVWrite("%1$s", <<ToJson(Gates)>>, "gates.ndjson")
 =============================================================================
